@@ -23,7 +23,7 @@ def run(ctx: Ctx):
         "numeric value); a statistic is tested with `is None`, never for truth (0.0 is a valid mean)."
     )
     ctx.not_decided = [
-        "the median ALGORITHM (_weighted_median / scale_median) as a whole: only its two piecewise tests are decided (the 50% point is the first cumulative share >= 0.5; the tie branch is taken on EXACT equality with 0.5); its known defect (D5: a zero-count category next to the 50% point gives 1.5 instead of 2) is not expressible as a sound structural rule and is neither claimed nor repaired here",
+        "the median ALGORITHM (_weighted_median / scale_median) as a whole: only its two piecewise tests are decided (the 50% point is the first cumulative share >= 0.5; the tie branch is taken on EXACT equality with 0.5); the neighbour used on an exact tie (D5: a zero-count category next to the 50% point gave 1.5 instead of 2) is decided by the tie-neighbour rule and was repaired",
         "numeric agreement with respondent-level statistics",
     ]
     strand(ctx)
@@ -42,6 +42,7 @@ def run(ctx: Ctx):
     from .common import dependency_footprints
 
     dependency_footprints(ctx)
+    median_tie_neighbour(ctx)
 
 
 def strand(ctx: Ctx):
@@ -340,3 +341,35 @@ def deviation_form(ctx: Ctx):
                 else:
                     ctx.held("deviation-form", where, "every squared quantity is a deviation from the mean", "")
     ctx.count("variance helpers scanned", n)
+
+
+def median_tie_neighbour(ctx: Ctx):
+    """When exactly half the respondents are at or below value v_k the median is the mean of v_k and the NEXT value that
+    HAS respondents.  Averaging with the next category in value order (index k + 1) is wrong whenever that category is
+    empty (count 0) - the defect the property statement itself points at.  Every occurrence of the pattern
+    `values[[k, k + 1]]` / `values[k] .. values[k + 1]` in median code is reported; the one that stood in
+    _ScaleMedian._weighted_median (D5) was repaired."""
+    from ..scope import in_scope
+
+    n, hits = 0, []
+    for m in ctx.repo.all_members():
+        short = m.cls.module.path.split("cr/cube/")[-1]
+        if "median" not in m.name.lower() and "median" not in m.cls.name.lower():
+            continue
+        n += 1
+        for x in ast.walk(m.node):
+            if isinstance(x, ast.Subscript):
+                parts = x.slice.elts if isinstance(x.slice, (ast.List, ast.Tuple)) else [x.slice]
+                for p in parts:
+                    if isinstance(p, ast.BinOp) and isinstance(p.op, ast.Add) and isinstance(p.right, ast.Constant) and p.right.value == 1 and "idx" in u(p.left):
+                        hits.append((f"{short}::{m.cls.name}.{m.name} [neighbour {u(p)}]", u(x)[:70]))
+    ctx.count("median functions scanned", n)
+    ctx.require_min("median functions scanned", 3)
+    seen = set()
+    for where, text in hits:
+        if where in seen:
+            continue
+        seen.add(where)
+        ctx.violated("median.tie-neighbour", where, text, "the next value that has respondents", "the neighbour in VALUE order may be an empty category: the reported median lies between two values although no respondent has the upper one")
+    if not hits:
+        ctx.held("median.tie-neighbour", "median code", "no tie average with the next category in value order", "")
